@@ -214,7 +214,7 @@ func c11CounterGen(m *c11Model, recent []uint64, high bool) *rapid.Generator[uin
 }
 
 func TestC11_Model(t *testing.T) {
-	vk.Check(t, 80000, func(rt *rapid.T) {
+	vk.Check(t, 60000, func(rt *rapid.T) {
 		l := rapid.SampledFrom(c11Lengths).Draw(rt, "L")
 		regime := rapid.SampledFrom([]string{"fresh", "fresh", "seeded", "steady", "steady", "high", "high"}).Draw(rt, "regime")
 		lg := c11Loggers()[rapid.IntRange(0, 1).Draw(rt, "logger")]
@@ -284,7 +284,7 @@ func TestC11_Model(t *testing.T) {
 // counters arrive. Window length is the production 8192.
 func TestC11_ProductionSeeded(t *testing.T) {
 	pair := c11CipherPair()
-	vk.Check(t, 10000, func(rt *rapid.T) {
+	vk.Check(t, 8000, func(rt *rapid.T) {
 		k := rapid.OneOf(rapid.Uint64Range(0, 4), rapid.Uint64Range(0, ReplayWindow+2),
 			rapid.SampledFrom([]uint64{ReplayWindow - 1, ReplayWindow, ReplayWindow + 1})).Draw(rt, "messageIndex")
 		cs, err := newConnectionStateFromResult(&handshake.Result{EKey: pair[0], DKey: pair[1], Cipher: noise.CipherAESGCM, MessageIndex: k})
